@@ -299,6 +299,114 @@ def length_boundaries(ctx, tls, thorough):
                         {"rebuild": f"checks.c17_tls: {key}"}, {"oracle": "encode-raises", "message": kind})
 
 
+class Vec:
+    """a vector with an n-byte length prefix whose content is a list of parts (bytes or Vec); written from
+    the RFC 8446 presentation language, independent of tls.py"""
+    def __init__(self, n, *parts, name=""):
+        self.n, self.parts, self.name = n, list(parts), name
+
+    def content(self, lie):
+        return b"".join(p.encode(lie) if isinstance(p, Vec) else p for p in self.parts)
+
+    def encode(self, lie=None):
+        c = self.content(lie)
+        n = len(c) + (lie[1] if lie is not None and lie[0] is self else 0)
+        if n < 0 or n >= 1 << (8 * self.n):
+            raise ValueError("length out of range")
+        return n.to_bytes(self.n, "big") + c
+
+    def walk(self, path=""):
+        here = f"{path}/{self.name}" if self.name else path
+        yield self, here
+        for i, p in enumerate(self.parts):
+            if isinstance(p, Vec):
+                yield from p.walk(f"{here}[{i}]" if not p.name else here)
+
+
+def message_trees():
+    """(kind, handshake type, body tree) with every nested vector tls.py parses, each extension both LAST and
+    NOT LAST in the extensions block, followed by ASCII-looking / valid-looking bytes"""
+    u16 = lambda v: v.to_bytes(2, "big")
+    ext = lambda t, *parts, name: [u16(t), Vec(2, *parts, name=f"ext:{name}")]
+    sni = lambda h: ext(0, Vec(2, b"\x00", Vec(2, h, name="host"), name="names"), name="server_name")
+    alpn = lambda *ps: ext(16, Vec(2, *[Vec(1, p, name="proto") for p in ps], name="protos"), name="alpn")
+    ks = lambda *es: ext(51, Vec(2, *[x for g, k in es for x in (u16(g), Vec(2, k, name="key"))], name="shares"),
+                         name="key_share")
+    vers = ext(43, Vec(1, u16(0x0304), u16(0x0303), name="versions"), name="supported_versions")
+    sig = ext(13, Vec(2, u16(0x0804), u16(0x0403), name="algs"), name="signature_algorithms")
+    grp = ext(10, Vec(2, u16(29), u16(23), name="groups"), name="supported_groups")
+    modes = ext(45, Vec(1, b"\x01", name="modes"), name="psk_modes")
+    psk = ext(41, Vec(2, Vec(2, b"ticket-id", name="identity"), bytes(4), Vec(2, b"id2", name="identity"), bytes(4),
+                      name="identities"),
+              Vec(2, Vec(1, b"B" * 32, name="binder"), Vec(1, b"C" * 32, name="binder"), name="binders"), name="psk")
+    unknown = ext(0xFFA5, b"opaque", name="unknown")
+    head = [u16(0x0303), bytes(range(32)), Vec(1, bytes(32), name="session_id")]
+    ch = lambda exts: head + [Vec(2, u16(0x1301), u16(0x1302), name="suites"), Vec(1, b"\x00", name="compression"),
+                              Vec(2, *[x for e in exts for x in e], name="extensions")]
+    orders = [
+        [vers, sni(b"example.com"), alpn(b"h3", b"hq-interop"), ks((29, b"K" * 32), (23, b"L" * 65)), sig, grp, modes, psk],
+        [ks((29, b"K" * 32)), alpn(b"h3"), unknown, grp, sig, modes, vers, sni(b"a.b")],
+        [sni(b"host.example"), ks((29, b"k" * 32), (23, b"l" * 65)), sig, vers, alpn(b"h3", b"h3-29")],
+    ]
+    for i, o in enumerate(orders):
+        yield "client_hello", 1, Vec(3, *ch(o), name=f"ClientHello#{i}")
+    sh = lambda exts: head + [u16(0x1301), b"\x00", Vec(2, *[x for e in exts for x in e], name="extensions")]
+    sh_ks = ext(51, u16(29), Vec(2, b"S" * 32, name="key"), name="key_share")
+    sh_v = ext(43, u16(0x0304), name="supported_version")
+    sh_p = ext(41, u16(0), name="psk")
+    for i, o in enumerate([[sh_v, sh_ks, sh_p], [sh_ks, unknown, sh_v]]):
+        yield "server_hello", 2, Vec(3, *sh(o), name=f"ServerHello#{i}")
+    ed = ext(42, (7).to_bytes(4, "big"), name="early_data")
+    yield "new_session_ticket", 4, Vec(3, bytes(8), Vec(1, b"nonce", name="nonce"), Vec(2, b"T" * 40, name="ticket"),
+                                     Vec(2, *ed, *unknown, name="extensions"), name="NewSessionTicket")
+    for i, o in enumerate([[alpn(b"h3"), unknown], [unknown, ext(42, name="early_data"), alpn(b"h3")]]):
+        yield "encrypted_extensions", 8, Vec(3, Vec(2, *[x for e in o for x in e], name="extensions"),
+                                             name=f"EncryptedExtensions#{i}")
+    entry = lambda c, e: [Vec(3, c, name="cert_data"), Vec(2, e, name="entry_extensions")]
+    yield "certificate", 11, Vec(3, Vec(1, b"ctx", name="context"),
+                                  Vec(3, *entry(b"CERT-ONE" * 8, b""), *entry(b"cert-two" * 5, b"\x00\x05\x00\x00"),
+                                      *entry(b"c3", b""), name="certificate_list"), name="Certificate")
+    yield "certificate_request", 13, Vec(3, Vec(1, b"rq", name="context"), Vec(2, *sig, *unknown, name="extensions"),
+                                          name="CertificateRequest#0")
+    yield "certificate_request", 13, Vec(3, Vec(1, b"", name="context"), Vec(2, *unknown, *sig, name="extensions"),
+                                          name="CertificateRequest#1")
+    yield "certificate_verify", 15, Vec(3, u16(0x0804), Vec(2, b"S" * 64, name="signature"), name="CertificateVerify")
+
+
+def nested_length_lies(ctx, tls, thorough):
+    """for EVERY length prefix of every nesting level: the declared length overruns its enclosing block by
+    1..k bytes or stops short by 1..k, all OUTER lengths staying consistent with the bytes actually present.
+    Oracle: the strict RFC 8446 reference decoder rejects <=> pull_* raises the documented parse error;
+    accepted inputs must re-encode equivalently (judge_bytes)."""
+    stats = {}
+    deltas = [1, 2, 3, 4, 5, 8, 13, -1, -2, -3] + ([6, 7, 9, 16, 32, -4, -8] if thorough else [])
+    for kind, t, tree in message_trees():
+        clean = bytes([t]) + tree.encode()
+        ctx.count(("lie", kind, tree.name, "clean"), True)
+        judge_bytes(ctx, tls, kind, clean, f"{tree.name} unmodified", stats)
+        st, _ = parse_outcome(tls, kind, clean)
+        if st != "ok":
+            ctx.witness(f"pull_{kind} refuses a well-formed message written from RFC 8446 ({tree.name})",
+                        {"bytes": clean.hex()}, {"oracle": "rejects-wellformed", "message": kind})
+        for node, path in tree.walk():
+            if node is tree:
+                continue            # the message length itself: covered by prefix_boundaries / arbitrary
+            for d in deltas:
+                try:
+                    data = bytes([t]) + tree.encode((node, d))
+                except ValueError:
+                    continue
+                origin = f"{path}: declared length {'+' if d > 0 else ''}{d}, outer lengths consistent"
+                ctx.count(("lie", kind, path, d), True)
+                judge_bytes(ctx, tls, kind, data, origin, stats)
+                st, _ = parse_outcome(tls, kind, data)
+                rk, _ = ref_outcome(data)
+                if st == "err" and rk is not None:
+                    ctx.witness(f"pull_{kind} refuses bytes the strict RFC 8446 decoder accepts ({origin})",
+                                {"bytes": data.hex()}, {"oracle": "rejects-wellformed", "message": kind})
+    ctx.notes["tls_nested_length_lies"] = stats
+
+
 CORR = []      # (hex, implementation outcome) for the Lean acceptance model
 
 
@@ -412,6 +520,7 @@ def run(ctx, tier):
     r = rng.make("c17-tls")
     roundtrips(ctx, tls, r, 1500 if thorough else 150)
     length_boundaries(ctx, tls, thorough)
+    nested_length_lies(ctx, tls, thorough)
     extension_lengths(ctx, tls, r)
     arbitrary(ctx, tls, r, 20000 if thorough else 1200)
     correspond(ctx)
@@ -445,7 +554,7 @@ def main(tier):
 
 
 TLS_ORACLES = {"encode-differs", "roundtrip", "cross-decode", "parse-escape", "accepts-malformed", "no-reencode",
-               "reencode-differs", "extension-length", "encode-raises"}
+               "reencode-differs", "extension-length", "encode-raises", "rejects-wellformed"}
 
 
 def owns(d):
